@@ -703,6 +703,7 @@ func (s *Service) serve(nc Conn) error {
 		s.infof("Listening for requests")
 		s.startListener(inCh)
 	}
+	simYield("serve.afterListener", "")
 
 	// Stop all workers by closing worker channel
 	close(workCh)
